@@ -44,12 +44,45 @@ type generator struct {
 	rels []int
 	nons []int
 	ss   *Session
+	// focus: a structural anomaly was reported by the hook; prefer operations on relation nodes and
+	// registered filters so that latent corruption becomes observable (the verdict stays observable-only)
+	focus bool
 }
+
+// relationNodeMasks lists the component sets of the relation nodes of the world (from World.Stats).
+func (g *generator) relationNodeMasks() (res [][]int) {
+	defer func() {
+		if recover() != nil {
+			res = [][]int{}
+		}
+	}()
+	res = [][]int{}
+	st := g.x.w.Stats()
+	for i := range st.Nodes {
+		nd := &st.Nodes[i]
+		if nd.HasRelation && nd.IsActive {
+			m := []int{}
+			for _, c := range nd.ComponentIDs {
+				m = append(m, int(c))
+			}
+			res = append(res, m)
+		}
+	}
+	return res
+}
+
+var focusWeights = map[string]int{"create": 34, "remove": 24, "setrel": 10, "batchsetrel": 4, "panel": 6, "register": 4,
+	"batchremove": 2, "exchange": 8, "batchcreate": 6, "set": 2}
 
 func (g *generator) pct(p int) bool { return g.rng.Intn(100) < p }
 
-func (g *generator) aliveRefs() []int {
-	res := []int{}
+func (g *generator) aliveRefs() (res []int) {
+	defer func() {
+		if recover() != nil {
+			res = []int{}
+		}
+	}()
+	res = []int{}
 	seen := map[ecs.Entity]bool{}
 	for i, e := range g.x.issued {
 		if i < g.x.epoch {
@@ -63,8 +96,13 @@ func (g *generator) aliveRefs() []int {
 	return res
 }
 
-func (g *generator) deadRefs() []int {
-	res := []int{}
+func (g *generator) deadRefs() (res []int) {
+	defer func() {
+		if recover() != nil {
+			res = []int{}
+		}
+	}()
+	res = []int{}
 	for i, e := range g.x.issued {
 		if i < g.x.epoch {
 			continue
@@ -78,7 +116,13 @@ func (g *generator) deadRefs() []int {
 
 func (g *generator) pick(v []int) int { return v[g.rng.Intn(len(v))] }
 
-func (g *generator) maskOf(ref int) []int {
+// maskOf reads the component set of an entity; a world corrupted by the code under test must not crash the driver.
+func (g *generator) maskOf(ref int) (res []int) {
+	defer func() {
+		if recover() != nil {
+			res = []int{}
+		}
+	}()
 	m := g.x.w.Mask(g.x.issued[ref])
 	return g.x.maskIDs(&m)
 }
@@ -148,12 +192,46 @@ func (g *generator) vals(ids []int) []int {
 	return res
 }
 
+// recycledTargets lists alive entities whose id equals the id of a dead entity that some alive entity
+// still has as its relation target (same id, other generation).
+func (g *generator) recycledTargets() (res []int) {
+	defer func() {
+		if recover() != nil {
+			res = []int{}
+		}
+	}()
+	res = []int{}
+	alive := g.aliveRefs()
+	for _, c := range alive {
+		m := g.maskOf(c)
+		rel := g.relOf(m)
+		if rel < 0 {
+			continue
+		}
+		t := g.x.w.Relations().Get(g.x.issued[c], g.x.idOf(rel))
+		if t.IsZero() || g.x.w.Alive(t) {
+			continue
+		}
+		for _, r := range alive {
+			if g.x.issued[r].ID() == t.ID() && !contains(res, r) {
+				res = append(res, r)
+			}
+		}
+	}
+	return res
+}
+
 // target draws a relation target reference: mostly alive or zero; dead when faulty.
 func (g *generator) target(faulty bool) int {
 	alive := g.aliveRefs()
 	dead := g.deadRefs()
 	if faulty && len(dead) > 0 {
 		return g.pick(dead)
+	}
+	if g.pct(25) {
+		if rt := g.recycledTargets(); len(rt) > 0 {
+			return g.pick(rt)
+		}
 	}
 	if len(alive) == 0 || g.pct(20) {
 		return -1
@@ -245,9 +323,14 @@ func hasNestedRel(f *FSpec, top bool) bool {
 }
 
 // matching lists alive entity refs that match a filter right now, using the real filter on the real masks.
-func (g *generator) matching(f *FSpec) []int {
+func (g *generator) matching(f *FSpec) (res []int) {
+	defer func() {
+		if recover() != nil {
+			res = []int{}
+		}
+	}()
 	rf, _ := g.x.buildFilter(f)
-	res := []int{}
+	res = []int{}
 	for _, ref := range g.aliveRefs() {
 		e := g.x.issued[ref]
 		m := g.x.w.Mask(e)
@@ -303,13 +386,27 @@ func (g *generator) walk() []int {
 }
 
 // next draws the next operation.
-func (g *generator) next() Op {
+// next draws the next operation; if the world is so corrupted that even choosing arguments panics,
+// fall back to a plain query panel (the trace validation will report what the world shows).
+func (g *generator) next() (op Op) {
+	defer func() {
+		if recover() != nil {
+			op = Op{Op: "Panel", F: &FSpec{K: "all", Tgt: -1}}
+		}
+	}()
+	return g.nextInner()
+}
+
+func (g *generator) nextInner() Op {
 	alive := g.aliveRefs()
 	dead := g.deadRefs()
 	faulty := g.pct(g.p.FaultPct)
 	weights := g.p.Weights
 	if g.ss != nil && g.ss.b != nil && g.p.Twin == "load" && g.p.WeightsB != nil {
 		weights = g.p.WeightsB
+	}
+	if g.focus && g.p.Twin != "load" {
+		weights = focusWeights
 	}
 	kinds := []string{}
 	for k := range weights {
@@ -346,6 +443,19 @@ func (g *generator) next() Op {
 				continue
 			}
 			ids := g.compSet()
+			if g.focus {
+				// re-populate existing relation nodes, without explicit values
+				if ms := g.relationNodeMasks(); len(ms) > 0 && g.pct(85) {
+					ids = ms[g.rng.Intn(len(ms))]
+				}
+				rel := g.relOf(ids)
+				op := Op{Op: "BuilderNew", Api: "Builder.New", Ids: ids, Rel: 0, Tgt: -1}
+				if rel >= 0 {
+					op.HasRel, op.Rel, op.HasTgt = true, rel, true
+					op.Tgt = g.target(false)
+				}
+				return op
+			}
 			rel := g.relOf(ids)
 			if faulty && g.pct(30) && len(ids) > 0 {
 				ids = append(ids, ids[0]) // duplicate id
